@@ -1515,7 +1515,7 @@ impl Date {
             -1 => self.yesterday(),
             1 => self.tomorrow(),
             days => {
-                let days = UnixEpochDay::try_new("days", days).with_context(
+                let days = t::SpanDays::try_new("days", days).with_context(
                     || {
                         err!(
                             "{days} computed from duration {duration:?} \
